@@ -27,6 +27,8 @@ type Env struct {
 	pkg     *types.Package
 	at      *ssa.BasicBlock // evaluation point (for local-name resolution), may be nil
 	calleeMode bool
+	curCall *CallSite // sink evaluation: the call site the assertion is attached to
+	curName string
 }
 
 func (fr *Frame) envAt(st *State) *Env {
@@ -359,6 +361,7 @@ func (e *Env) pkgObject(obj types.Object) Term {
 						fe.pre.decl(fmt.Sprintf("(assert (not (= %s 0)))", n))
 					}
 					fe.eng.globalVals[n] = g
+					fe.sentinelSeen(n, g)
 					return Term{n, k, o.Type()}
 				}
 				gt := Term{"g_" + mangle(shortPkg(g.Pkg.Pkg.Path())+"."+g.Name()), SInt, g.Type()}
@@ -763,9 +766,41 @@ func (e *Env) callref(x *SExpr) Term {
 	if e.fr == nil || e.fr.depth != 0 {
 		e.fail("%s(...) only valid in the function's own clauses", x.Name)
 	}
-	cs, err := fe.findCall(x.Str)
-	if err != nil {
-		e.fail("%v", err)
+	if x.Name == "called" {
+		css, err := fe.findCalls(x.Str)
+		if err != nil {
+			e.fail("%v", err)
+		}
+		var rs []string
+		for _, cs := range css {
+			rs = append(rs, cs.reach)
+		}
+		return boolT(sOr(rs...))
+	}
+	var cs *CallSite
+	if e.curCall != nil && (x.Str == e.curName || x.Str == strings.SplitN(e.curName, "#", 2)[0]) {
+		cs = e.curCall
+	} else {
+		var err error
+		cs, err = fe.findCall(x.Str)
+		if err != nil && e.curCall != nil && !strings.Contains(x.Str, "#") {
+			// ambiguous: prefer the last matching call that precedes the current call in the same block
+			var pick *CallSite
+			for _, c := range fe.calls {
+				if c == e.curCall {
+					break
+				}
+				if c.block == e.curCall.block && contains(c.names, x.Str) {
+					pick = c
+				}
+			}
+			if pick != nil {
+				cs, err = pick, nil
+			}
+		}
+		if err != nil {
+			e.fail("%v", err)
+		}
 	}
 	switch x.Name {
 	case "called":
